@@ -466,7 +466,7 @@ theorem valid_implies_init_ok_HTTPServer (o : Oracle) (j : J) :
   intro h
   unfold httpServerValid at h
   simp only [Bool.and_eq_true] at h
-  have hr := h.2
+  have hr := h.1.2
   unfold httpServerInitOK
   rw [List.all_eq_true] at hr ⊢
   intro r hrm
@@ -602,6 +602,21 @@ theorem cb_pushed_windows_have_buckets (p : CBLibPolicy) (h : p.accepted = true)
 
 /-- non-vacuity: the default policy and the boundary policy (1, 0, 0) are accepted -/
 example : (CBLibPolicy.ofJ (.obj [])).accepted = true ∧ (⟨1, 0, 0⟩ : CBLibPolicy).accepted = true := by decide
+
+open EgVerif.Gen.FactsC13IR in
+/-- HTTPServer: the tracer `mux.reload` stores into the new instance is non-nil for every combination of old /
+new tracing sections and every outcome of `tracing.New` (selection statements translated; `tracing.New` returns
+nil exactly with an error: pattern fact) — `serveHTTP` and `close` cannot dereference a nil tracer. Validation
+accepts sections `tracing.New` rejects (negative `sampleRate`: `tracingSpecOK`), so this does not follow from
+validation. (`tracer_seeded_can_be_nil`: false for the seeded selection.) -/
+theorem tracer_never_nil (sameSpec newOK oldNonNil : Bool) :
+    Gen.FactsC13IR.extractionFailed = false ∧ tracingNewNilOnError = true ∧
+    tracerNonNilIR_mux sameSpec newOK oldNonNil = true :=
+  ⟨by decide, by decide, SpecGuards.tracer_never_nil sameSpec newOK oldNonNil⟩
+
+/-- non-vacuity of `tracingSpecOK`: a negative sample rate is accepted, 1.5 is not -/
+example : tracingSpecOK oTrue (.obj [("serviceName", .str "s"), ("zipkin", .obj [("serverURL", .str "http://z"), ("sampleRate", .num (-5) 1)])]) = true ∧
+    tracingSpecOK oTrue (.obj [("zipkin", .obj [("serverURL", .str "http://z"), ("sampleRate", .num 15 1)])]) = false := by decide
 
 open EgVerif.Gen.FactsC13IR in
 /-- **Every one of these statements is false for the validation before its `fix:` commit** (34c5ca9, 3dbd6e1,
